@@ -352,3 +352,33 @@ theorem nsRun_wf_aux (ops : List NSOp) : ∀ st, NSWf st → nsFresh st ops → 
     exact hf.1
 
 end Election
+
+namespace Election
+
+/-- `commit_authenticated`: a candidate that does not survive is itself among the losers the NodeServer
+is told to stop — the commit step does not rely on the session finding out by itself. -/
+theorem commit_loser_includes_candidate (st : NS) (id : Nat) (st' : NS) (losers : List Nat)
+    (h : st.commit id = some (st', false, losers)) : id ∈ losers := by
+  unfold NS.commit at h
+  cases hf : st.find id with
+  | none => rw [hf] at h; simp at h
+  | some s =>
+    rw [hf] at h
+    cases hp : s.peerName with
+    | none => simp [hp] at h
+    | some peer =>
+      simp only [hp, Option.some.injEq, Prod.mk.injEq] at h
+      obtain ⟨_, hsurv, hl⟩ := h
+      rw [← hl]
+      have hs : s ∈ st.sessions := List.mem_of_find?_eq_some hf
+      have hid : s.id = id := by simpa using List.find?_some hf
+      unfold NS.losersOf
+      simp only [List.mem_map, List.mem_filter]
+      refine ⟨{ s with auth := true }, ⟨?_, ?_⟩, hid⟩
+      · unfold NS.markAuth
+        simp only [List.mem_map]
+        exact ⟨s, hs, by simp [hid]⟩
+      · simp only [hp, beq_self_eq_true, Bool.and_true, Bool.true_and, Bool.not_eq_true', hid]
+        simpa using hsurv
+
+end Election
